@@ -74,3 +74,51 @@ class ScaleSpec(SeqSpec):
 
     def nontrivial(self, case, obs):
         return True
+
+
+class Extras19Spec(SeqSpec):
+    """C19 extras (oracle-only): WithStack records the whole call stack also when it is deeper than one batch of
+    frames; the default-source Sample functions are not grossly biased (a one-sided 8-sigma test per subset: with
+    20000 trials a fair sampler fails it with probability < 1e-13 per run)."""
+    component = "extras19"
+    checkers = {}
+
+    def shrinkable(self):
+        return False
+
+    def coq_case(self, case, obs):
+        return ""
+
+    def gen(self, rng, tier, scale):
+        cases = [{"component": "extras19", "ops": [], "cfg": {"kind": "withstack-depth", "depth": d}} for d in (5, 60, 64, 70, 200, 1000)]
+        trials = 20000 if tier == "quick" else 200000
+        for fn in ("Sample", "SampleSlice", "SampleIterator", "SampleStream"):
+            for n, k in ((4, 3), (5, 2), (6, 4)):
+                cases.append({"component": "extras19", "ops": [], "cfg": {"kind": "sample-freq", "fn": fn, "n": n, "k": k, "trials": trials}})
+        return cases
+
+    def oracle(self, case, obs):
+        import math
+        r = obs["obs"][0]
+        cfg = case["cfg"]
+        if not r.get("ok"):
+            return [("extras:panic", "%r: %s" % (cfg, r.get("msg")))]
+        if cfg["kind"] == "withstack-depth":
+            if r["frames"] < cfg["depth"]:
+                return [("xerrors:WithStack:stack-truncated", "WithStack called at recursion depth %d recorded only %d frames of the recursive function" % (cfg["depth"], r["frames"]))]
+            return []
+        n, k, trials = cfg["n"], cfg["k"], cfg["trials"]
+        nsub = math.comb(n, k)
+        p = 1.0 / nsub
+        mean, sd = trials * p, math.sqrt(trials * p * (1 - p))
+        counts = r["counts"]
+        if sum(counts.values()) != trials or any(len(key) != k for key in counts):
+            return [("xrand:sample-structure", "%s(n=%d,k=%d): malformed results %r" % (cfg["fn"], n, k, counts))]
+        worst = max([abs(c - mean) for c in counts.values()] + ([mean] if len(counts) < nsub else [0]))
+        if worst > 8 * sd:
+            return [("xrand:grossly-non-uniform", "%s(n=%d,k=%d): over %d trials a subset count deviates from the uniform expectation %.0f by %.0f (> 8 sigma = %.0f); counts %r"
+                     % (cfg["fn"], n, k, trials, mean, worst, 8 * sd, counts))]
+        return []
+
+    def nontrivial(self, case, obs):
+        return True
